@@ -192,7 +192,7 @@ def m_bare(which: int, x: int) -> bool:
 
 
 # ---- trees --------------------------------------------------------------------------------------------
-NATOM = 6
+NATOM = 7
 
 
 def atom(kind, c, tag, log):
@@ -216,6 +216,9 @@ def atom(kind, c, tag, log):
             log.append(('r', tag))
             return (x > c, ('val', tag))
         return p, r
+    if kind == 6:
+        # passes like M > c but yields a value other than the target
+        return And(M > c, Val(('val', tag))), (lambda x: (x > c, ('val', tag)))
     return Match(int) if c % 2 else Match(str), (lambda x: (bool(c % 2), x))
 
 
@@ -402,7 +405,7 @@ def obligations(tier):
                 if left == 2:
                     fx['a1'] = 0
                     pre = pre.replace('0 <= a1 < %d and ' % na, '').replace(' and 0 <= a1 < %d' % na, '')
-                obs.append(Ob(bool_tree, fixed=fx, pre=pre, name='bool_tree_r%d_l%d_ops%d' % (root, left, ops), timeout=120))
+                obs.append(Ob(bool_tree, fixed=fx, pre=pre, name='bool_tree_r%d_l%d_ops%d' % (root, left, ops), timeout=300))
     for vals in range(3):
         for validate in range(5):
             pre = '0 <= tkind <= 3'
@@ -413,8 +416,8 @@ def obligations(tier):
     obs.append(Ob(bool_step, fixed={'node': 1, 'n': 2, 'k2': 0}, pre='0 <= k0 <= 3 and 0 <= k1 <= 3', twin='step_err', name='bool_step_or_n2'))
     obs.append(Ob(bool_step, fixed={'node': 1, 'n': 2, 'k2': 0}, pre='0 <= k0 <= 3 and 0 <= k1 <= 3', twin='step_ok', name='bool_step_or_n2'))
     obs.append(Ob(m_atom, fixed={'op': 2}, pre='0 <= form <= 5', twin='m_false', name='m_atom_op2'))
-    obs.append(Ob(bool_tree, fixed={'root': 0, 'left': 1, 'ops': True}, pre='0 <= a0 < 6 and 0 <= a1 < 6 and 0 <= a2 < 6', twin='tree_reject', name='bool_tree_r0_l1'))
-    obs.append(Ob(bool_tree, fixed={'root': 0, 'left': 1, 'ops': True}, pre='0 <= a0 < 6 and 0 <= a1 < 6 and 0 <= a2 < 6', twin='tree_pass', name='bool_tree_r0_l1'))
+    obs.append(Ob(bool_tree, fixed={'root': 0, 'left': 1, 'ops': True}, pre='0 <= a0 < 7 and 0 <= a1 < 7 and 0 <= a2 < 7', twin='tree_reject', name='bool_tree_r0_l1'))
+    obs.append(Ob(bool_tree, fixed={'root': 0, 'left': 1, 'ops': True}, pre='0 <= a0 < 7 and 0 <= a1 < 7 and 0 <= a2 < 7', twin='tree_pass', name='bool_tree_r0_l1'))
     obs.append(Ob(check_kw, fixed={'vals': 1, 'validate': 1}, pre='0 <= tkind <= 3 and -1 <= x <= 3 and 0 <= c <= 1', twin='check_fail', name='check_kw_v1_val1'))
     obs.append(Ob(check_kw, fixed={'vals': 1, 'validate': 1}, pre='0 <= tkind <= 3 and -1 <= x <= 3 and 0 <= c <= 1', twin='check_pass', name='check_kw_v1_val1'))
     return obs
